@@ -23,10 +23,10 @@ Spec == Init /\ [][Next]_vars
 \* (StepOf is non-increasing in w, so these are the w at which the chunk size changes)
 Workers(k) == {1, 2} \cup {w \in 3..MaxW : StepOf(k, w) # StepOf(k, w - 1)}
 
-\* positions whose branch is checked for large n: both ends, and around every power of two
-\* (odd-sized levels put the duplicated node at the right edge)
+\* positions whose branch is checked for large n: the first, the middle, and positions at growing
+\* distances from the right edge (odd-sized levels put the self-paired node at the right edge)
 Pos(k) == IF k <= BranchAll THEN 0..(k - 1)
-          ELSE {p \in {0, k \div 2} \cup {k - 2 ^ j : j \in 0..12} : p >= 0 /\ p < k}
+          ELSE {p \in {0, k \div 2} \cup {k - 2 ^ j : j \in {0, 1, 2, 3, 5, 7, 9}} : p >= 0 /\ p < k}
 
 ParEqSeq  == \A w \in Workers(n) : ChunkRoot(Leaves(n), w) = SeqRoot(Leaves(n))
 CompEqSeq == CompRoot(Leaves(n)) = SeqRoot(Leaves(n))
